@@ -559,6 +559,16 @@ func (pck *pebbleEngCheckpoint) Save(path string, notify chan struct{}) error {
 	// checkpoint is fixed only when Checkpoint() returns.  Releasing the apply loop earlier
 	// (it used to be a 20ms timer) lets entries after the snapshot index into the checkpoint,
 	// and they are applied a second time when the raft log is replayed after a restore.
+	if pck.pe.cfg.DisableWAL {
+		// without the wal the data in the memtable is only in memory, the
+		// checkpoint would miss it
+		if err := pck.pe.eng.Flush(); err != nil {
+			if notify != nil {
+				close(notify)
+			}
+			return err
+		}
+	}
 	err := pck.pe.eng.Checkpoint(path)
 	if notify != nil {
 		close(notify)
